@@ -2504,6 +2504,11 @@ impl M2Model {
         let mut collision_mesh_data = None;
         let mut physics_file_data = None;
 
+        // Chunk sizes are validated against what the reader actually holds
+        let start_pos = reader.stream_position()?;
+        let file_end = reader.seek(SeekFrom::End(0))?;
+        reader.seek(SeekFrom::Start(start_pos))?;
+
         // Read all chunks
         loop {
             let header = match ChunkHeader::read(reader) {
@@ -2511,6 +2516,16 @@ impl M2Model {
                 Err(M2Error::Io(ref e)) if e.kind() == ErrorKind::UnexpectedEof => break,
                 Err(e) => return Err(e),
             };
+
+            let available = file_end.saturating_sub(reader.stream_position()?);
+            if header.size as u64 > available {
+                return Err(M2Error::ParseError(format!(
+                    "Chunk {} declares {} bytes but only {} remain in the file",
+                    header.magic_str(),
+                    header.size,
+                    available
+                )));
+            }
 
             chunks.push(header.clone());
 
